@@ -316,7 +316,7 @@ def run_case(case, cdir, keep=False):
             "--output_folder", out_dir, "--minibatch_size", str(case["B"]), "--subsampling", str(case["s"]),
             "--heuristic", case["heuristic"], "--target_ranking_only", case["target_only"],
             "--label_column", case["cols"][-1], "--include_cardinality_in_feature_names", "False",
-            "--disable_tqdm", "True", "--num_threads", str(case.get("num_threads", 1)),
+            "--disable_tqdm", case.get("disable_tqdm", "True"), "--num_threads", str(case.get("num_threads", 1)),
             "--interaction_order", str(case.get("interaction_order", 1)),
             "--combination_number_upper_bound", str(case.get("cap", 2 ** 15)),
             "--include_noise_baseline_features", case.get("noise", "False")] + list(case.get("extra_args", []))
